@@ -79,11 +79,24 @@ def norm_db(v, typ):
     return v
 
 
+def _json_native(v):
+    # what a JSON column can hold of a nested value: dates as ISO text, decimals as numbers
+    if isinstance(v, dict):
+        return {k: _json_native(x) for k, x in v.items()}
+    if isinstance(v, (list, tuple)):
+        return [_json_native(x) for x in v]
+    if isinstance(v, (datetime.date, datetime.datetime)):
+        return v.isoformat()
+    if isinstance(v, decimal.Decimal):
+        return float(v)
+    return v
+
+
 def norm_model(v, typ):
     if v is None:
         return None
     if typ in ('array', 'object'):
-        return json.dumps(v, sort_keys=True)
+        return json.dumps(_json_native(v), sort_keys=True)
     if typ == 'number':
         return float(v)
     if typ == 'boolean':
@@ -382,9 +395,10 @@ def run_case(case):
             if 'day' in typ:
                 r['day'] = rng.choice([datetime.date(2020, 1, 31), datetime.date(1999, 12, 1), None])
             if 'arr' in typ:
-                r['arr'] = rng.choice([[1, 2], ['a', {'b': None}], [], None])
+                r['arr'] = rng.choice([[1, 2], ['a', {'b': None}], [], None, [datetime.date(2020, 1, 31), decimal.Decimal('12.5')]])
             if 'obj' in typ:
-                r['obj'] = rng.choice([{'a': 1}, {'ż': [1, 2]}, {}, None])
+                r['obj'] = rng.choice([{'a': 1}, {'ż': [1, 2]}, {}, None,
+                                       {'when': datetime.date(1999, 12, 1), 'amounts': [decimal.Decimal('0.5')]}])
             if 'dur' in typ:
                 r['dur'] = rng.choice([datetime.timedelta(days=1, hours=2), datetime.timedelta(seconds=90), None])
             rows.append(r)
